@@ -22,10 +22,31 @@ func (n Name) PackLen() int {
 	return l + 1
 }
 
+const maxCompressionDepth = 3
+
 // copied and from dnsmessage.Name.pack.
 // Note: compression map is valid when name is not changed.
+//
+// A table value is the offset of the suffix (low 14 bits) and the number of
+// pointers that have to be followed to read that suffix to its end (high 2
+// bits). Suffixes deeper than maxCompressionDepth are not added to the table,
+// so that pointer chains stay short: decoders (including ours) give up after
+// 10 pointers.
 func (n Name) pack(msg []byte, off int, compression map[string]uint16) (int, error) {
 	var unsafeStr string // lazy init
+
+	// The depth the labels of this name will have: 0 if the name will be
+	// packed without a pointer, otherwise one more than the pointed suffix.
+	var depth uint16
+	if compression != nil {
+		s := NewNameScanner(n)
+		for s.Scan() {
+			if v, ok := compression[string(n[s.LabelOff()-1:])]; ok {
+				depth = v>>14 + 1
+				break
+			}
+		}
+	}
 
 	scanner := NewNameScanner(n)
 	for scanner.Scan() {
@@ -38,20 +59,21 @@ func (n Name) pack(msg []byte, off int, compression map[string]uint16) (int, err
 		// segment. A pointer is two bytes with the two most significant
 		// bits set to 1 to indicate that it is a pointer.
 		if compression != nil {
-			if ptr, ok := compression[string(n[labelStart:])]; ok {
+			if v, ok := compression[string(n[labelStart:])]; ok {
 				// Hit. Emit a pointer instead of the rest of
 				// the domain.
+				ptr := v & 0x3FFF
 				return packNamePtr(msg, off, [2]byte{byte(ptr>>8 | 0xC0), byte(ptr)})
 			}
 
 			// Miss. Add the suffix to the compression table if the
 			// offset can be stored in the available 14 bits.
 			newPtr := off
-			if newPtr <= int(^uint16(0)>>2) {
+			if newPtr <= int(^uint16(0)>>2) && depth <= maxCompressionDepth {
 				if len(unsafeStr) == 0 {
 					unsafeStr = bytes2StrUnsafe(n)
 				}
-				compression[unsafeStr[labelStart:]] = uint16(newPtr)
+				compression[unsafeStr[labelStart:]] = uint16(newPtr) | depth<<14
 			}
 		}
 
